@@ -49,3 +49,22 @@ func H_C02_core_parse_indirect() {
 	_, _ = obj, err
 	vReach("end")
 }
+
+// H_C02_core_nesting_is_bounded: the document-level parser's recursion does not grow with the nesting an input asks for.
+//
+//symgo:harness prop=C02 kernel=core.ParseObject-nesting hang=1 depth=1500 loop=100000 steps=400000000
+//symgo:desc object text made of k opening brackets - "[" or "<</K" or "[<</K" (enumerated) - with k = 2000 in the engine, through ParseObject and ParseIndirectObject ("1 0 obj" prefix; enumerated): the call depth stays below 1500; the candidate is replayed natively with k = 30 million
+func H_C02_core_nesting_is_bounded() {
+	k := 2000
+	if !vIsSymbolic() {
+		k = 30000000
+	}
+	unit := []string{"[", "<</K", "[<</K"}[vAnyIntIn(0, 2)]
+	data := bytes.Repeat([]byte(unit), k)
+	if vAnyIntIn(0, 1) == 0 {
+		_, _ = NewParser(bytes.NewReader(data)).ParseObject()
+	} else {
+		_, _ = NewParser(bytes.NewReader(append([]byte("1 0 obj "), data...))).ParseIndirectObject()
+	}
+	vReach("end")
+}
